@@ -771,7 +771,7 @@ def role_deps(loop: Any, ir: IR) -> Set[str]:
 
 
 def guard_interval(loop: Any, node_id: int, IN: Dict[int, Optional[frozenset]], role: str,
-                   *, pure: bool = True) -> Tuple[Optional[lx.Interval], List[str]]:
+                   *, pure: bool = True, only_with: Optional[Set[str]] = None) -> Tuple[Optional[lx.Interval], List[str]]:
     """interval of the role variable implied by the must-path-conditions at node_id.
     pure=True: only conditions that depend on that role variable alone."""
     facts = IN.get(node_id)
@@ -787,6 +787,8 @@ def guard_interval(loop: Any, node_id: int, IN: Dict[int, Optional[frozenset]], 
             continue
         if pure and deps != {role}:
             continue
+        if only_with is not None and not only_with <= deps:
+            continue            # e.g. the self-loop test relates j to ip: facts about j alone (the null test) are not part of it
         # only conditions on the variable's value itself (not on derived quantities like ip & mask)
         try:
             iv = lx.solve(ir, var, loop.env, unsigned=unsigned)
